@@ -109,7 +109,7 @@ def primitives(ctx, prog, ev):
     # strings
     ws, rs_ = ctx.fa(f"{B}.write_string"), ctx.fa(f"{B}.read_string")
     s_ = ws.fi.params()[1]
-    body = [norm_text(x) for x in ws.node.body]
+    body = R.top_level_texts(ws)
     ctx.ob("C05-D2/TABLE", body == [f"self.write_compact_size(len({s_}))", f"self.write({s_})"], ws.site(), "varstr writer = varint length, then the bytes", detail=str(body),
            func=ws.fi.qualname)
     r = R.single_return_value(rs_)
@@ -125,7 +125,7 @@ def codecs(ctx, prog):
     # ---- Input
     f, w = ops(f"{T}.Input.serialize_to")
     kw = seqops.kinds(w)
-    want_w = [("w", "raw"), ("w", "uint32"), ("if", [("w", "string")], [("if", [("w", "string")], [("w", "string")])]), ("w", "uint32")]
+    want_w = [("w", "raw"), ("w", "uint32"), ("if", [("if", [("w", "string")], [("w", "string")])], [("w", "string")]), ("w", "uint32")]
     ctx.ob("C05-D1/SEQ", kw == want_w, f.site(), "Input writer: 32-byte previous hash, u32 index, varstr script, u32 sequence", detail="" if kw == want_w else seqops.fmt(w),
            func=f.qualname, key=f"C05-D1/SEQ|{f.qualname}")
     args = [o[2] for o in w if o[0] == "w"] + [o[2] for o in w if o[0] == "w"]
@@ -133,8 +133,10 @@ def codecs(ctx, prog):
     ok = flat[0][2] == "self.txo_ref.tx_ref.hash" and flat[1][2] == "self.txo_ref.position" and flat[-1][2] == "self.sequence"
     ctx.ob("C05-D1/DEP", ok, f.site(), "the fields written are the spent output's tx hash and position, and this input's sequence", func=f.qualname)
     br = [o for o in w if o[0] == "if"][0] if any(o[0] == "if" for o in w) else None
-    okb = br is not None and br[1] == "alternate_script is not None" and br[2] == [("w", "string", "alternate_script")] and \
-        br[3][0][2] == [("w", "string", "self.coinbase")] and br[3][0][3] == [("w", "string", "self.script.source")]
+    ab = seqops.branch(br, "alternate_script is not None")
+    cb = seqops.branch(ab[1][0], "self.is_coinbase") if ab and ab[1] else None
+    okb = ab is not None and ab[0] == [("w", "string", "alternate_script")] and cb is not None and \
+        cb[0] == [("w", "string", "self.coinbase")] and cb[1] == [("w", "string", "self.script.source")]
     ctx.ob("C05-D1/DEP", okb, f.site(), "the script written is the alternate (signing) script if given, else coinbase data or the input script source", func=f.qualname)
     f, r = ops(f"{T}.Input.deserialize_from")
     kr = seqops.kinds(r)
@@ -159,24 +161,25 @@ def codecs(ctx, prog):
     # ---- Transaction
     f, w = ops(f"{T}.Transaction._serialize")
     want = [("w", "uint32", "self.version"),
-            ("if", "with_inputs", [("w", "compact_size", "len(self._inputs)"), ("rep", "self._inputs", [("call", "txin.serialize_to")])], []),
+            ("if", seqops.cond("with_inputs"), [("w", "compact_size", "len(self._inputs)"), ("rep", "self._inputs", [("call", "txin.serialize_to")])], []),
             ("call", "self._serialize_outputs"), ("w", "uint32", "self.locktime")]
     ctx.ob("C05-D1/SEQ", w == want, f.site(), "Transaction writer: u32 version, varint n_in, inputs in order, outputs block, u32 locktime", detail="" if w == want else seqops.fmt(w),
            func=f.qualname, key=f"C05-D1/SEQ|{f.qualname}")
     f2 = prog.func(f"{T}.Transaction._serialize_outputs")
     o = seqops.extract(f2.node, ["self._raw_outputs", "stream"])
-    want_o = [("if", "self._raw_outputs is None", [("w", "compact_size", "len(self._outputs)"), ("rep", "self._outputs", [("call", "txout.serialize_to")])], []),
+    want_o = [("if", seqops.cond("self._raw_outputs is None"), [("w", "compact_size", "len(self._outputs)"), ("rep", "self._outputs", [("call", "txout.serialize_to")])], []),
               ("w", "raw", "self._raw_outputs.get_bytes()")]
     ctx.ob("C05-D1/SEQ", o == want_o, f2.site(), "outputs block: varint n_out, outputs in order (cached), appended to the stream", detail="" if o == want_o else seqops.fmt(o),
            func=f2.qualname, key=f"C05-D1/SEQ|{f2.qualname}")
     f, r = ops(f"{T}.Transaction._deserialize")
-    inner = r[0][2] if r and r[0][0] == "if" else r
+    _b = seqops.branch(r[0], "self._raw is not None") if r else None
+    inner = _b[0] if _b else r
     want_r = [("r", "uint32", ""), ("r", "compact_size", ""),
-              ("if", "input_count == 0", [("r", "uint8", ""), ("r", "compact_size", "")], []),
+              ("if", seqops.cond("input_count == 0"), [("r", "uint8", ""), ("r", "compact_size", "")], []),
               ("rep", "range(input_count)", [("call", "Input.deserialize_from")]),
               ("r", "compact_size", ""),
               ("rep", "range(output_count)", [("call", "Output.deserialize_from")]),
-              ("if", "self.is_segwit_flag", [("rep", "range(input_count)", [("r", "compact_size", ""), ("rep", "range(stream.read_compact_size())",
+              ("if", seqops.cond("self.is_segwit_flag"), [("rep", "range(input_count)", [("r", "compact_size", ""), ("rep", "range(stream.read_compact_size())",
                                                                                                         [("r", "compact_size", ""), ("r", "raw", "stream.read_compact_size()")])])], []),
               ("r", "uint32", "")]
     ok = inner == want_r
@@ -219,13 +222,13 @@ def txid(ctx, prog):
     ctx.ob("C05-D3/DEP", not wit, se.site(), "_serialize never emits the segwit marker or witnesses", func=se.fi.qualname)
     # cache invalidation
     rst = ctx.fa(f"{T}.Transaction._reset")
-    body = sorted(norm_text(x) for x in rst.node.body)
+    body = sorted(R.top_level_texts(rst))
     want = sorted(["self._raw = None", "self._raw_sans_segwit = None", "self._raw_outputs = None", "self.ref.reset()"])
-    ctx.ob("C05-D3/CACHE", body == want, rst.site(), "_reset clears the three serialisation caches and the cached hash/id", detail="" if body == want else str(body),
+    ctx.ob("C05-D3/CACHE", set(want) <= set(body), rst.site(), "_reset clears the three serialisation caches and the cached hash/id", detail="" if body == want else str(body),
            func=rst.fi.qualname, key="C05-D3/CACHE|reset-all")
     rr = ctx.fa(f"{T}.TXRefMutable.reset")
-    body = sorted(norm_text(x) for x in rr.node.body)
-    ctx.ob("C05-D3/CACHE", body == ["self._hash = None", "self._id = None"], rr.site(), "ref.reset clears hash and id", func=rr.fi.qualname)
+    body = sorted(R.top_level_texts(rr))
+    ctx.ob("C05-D3/CACHE", {"self._hash = None", "self._id = None"} <= set(body), rr.site(), "ref.reset clears hash and id", func=rr.fi.qualname)
     for attr in ("_raw_outputs", "_raw_sans_segwit"):
         R.writers_only(ctx, "C05-D3/CACHE", attr, [f"{T}.Transaction.__init__", f"{T}.Transaction._reset", f"{T}.Transaction._serialize_outputs",
                                                    f"{T}.Transaction.raw_sans_segwit"], f"cache `{attr}`", floor=2,
